@@ -45,7 +45,7 @@ func (e *env) rowsInOrder(p *namePool) ([]string, []string) {
 }
 
 func pgTuple(r *rng, nobj int) *ketoapi.RelationTuple {
-	t := &ketoapi.RelationTuple{Namespace: r.pick(stNamespaces), Object: fmt.Sprintf("o%d", r.intn(nobj)), Relation: r.pick([]string{"r", "s"})}
+	t := &ketoapi.RelationTuple{Namespace: r.pick(stNamespaces), Object: fmt.Sprintf("o%d", r.intn(nobj)), Relation: r.pick([]string{"r", "s", "s", ""})}
 	if r.chance(2, 3) {
 		s := fmt.Sprintf("u%d", r.intn(7))
 		t.SubjectID = &s
@@ -98,10 +98,13 @@ func suitePage(t *testing.T, cfg cfgT) {
 				pairs = append(pairs, [2]string{"object", fmt.Sprintf("o%d", hr.intn(nobj))})
 			}
 			if hr.chance(1, 3) {
-				pairs = append(pairs, [2]string{"relation", hr.pick([]string{"r", "s"})})
+				pairs = append(pairs, [2]string{"relation", hr.pick([]string{"r", "s", ""})}) // "" is a relation like any other
 			}
 			if hr.chance(1, 5) {
 				pairs = append(pairs, [2]string{"subject_id", fmt.Sprintf("u%d", hr.intn(7))})
+			} else if hr.chance(1, 6) {
+				pairs = append(pairs, [2]string{"subject_set.namespace", hr.pick(stNamespaces)}, [2]string{"subject_set.object", fmt.Sprintf("o%d", hr.intn(nobj))},
+					[2]string{"subject_set.relation", hr.pick([]string{"r", ""})})
 			}
 			sizes := []int{0, 99, 100, 101, 250, n - 1, n, n + 1, 7, 33, n/2 + 1, n/3 + 1, n/4 + 1}
 			if n <= 30 {
@@ -146,6 +149,8 @@ func suitePage(t *testing.T, cfg cfgT) {
 				var next string
 				if grpc {
 					q := &rts.RelationQuery{}
+					var ssN, ssO, ssR string
+					hasSS := false
 					for _, kv := range pairs {
 						v := kv[1]
 						switch kv[0] {
@@ -157,7 +162,17 @@ func suitePage(t *testing.T, cfg cfgT) {
 							q.Relation = &v
 						case "subject_id":
 							q.Subject = rts.NewSubjectID(v)
+						case "subject_set.namespace":
+							ssN = v
+							hasSS = true
+						case "subject_set.object":
+							ssO = v
+						case "subject_set.relation":
+							ssR = v
 						}
+					}
+					if hasSS {
+						q.Subject = rts.NewSubjectSet(ssN, ssO, ssR)
 					}
 					resp, err := rts.NewReadServiceClient(e.rconn).ListRelationTuples(ctx, &rts.ListRelationTuplesRequest{RelationQuery: q, PageSize: int32(size), PageToken: tok})
 					code = grpcCode(err)
